@@ -1361,7 +1361,7 @@ func (e *Engine) bytesEq(st *State, a, b Slice) *Term {
 		if n.C == 0 {
 			return lenEq
 		}
-		if n.C <= 128 {
+		if n.C <= 600 {
 			// one wide equality; adjacent extracts of hash outputs merge back into the whole term
 			var x, y *Term
 			for i := uint64(0); i < n.C; i++ {
